@@ -184,4 +184,42 @@ def FSys.runNoCheck (T : Table) : FSys → List FLabel → Option (FSys × List 
       | none => none
       | some (f2, o2) => some (f2, o1 ++ o2)
 
+/-! ### variant for the witnesses: the callback as it was before F29 was repaired
+
+    p.escTimeout = time.AfterFunc(10*time.Millisecond, func() {
+        p.emit(C0(0x1B))          started  → emitted     (no mutex, no generation check)
+        p.mu.Lock()               emitted  → locked      (enabled only while the mutex is free)
+        p.state = ground          locked   → stateSet
+        p.ignoreST = false        stateSet → stSet
+        p.mu.Unlock()             stSet    → gone
+    })
+
+`Props/C08Fine.lean : fine_pre_F29_callback_fails` replays the three failures of F29 at the grain of
+single statements. -/
+
+def cbStepOld (f : FSys) (i : Nat) : Option (FSys × List Seq) :=
+  match f.cbs[i]? with
+  | some (g, .started) =>
+    some ({ f with cbs := f.cbs.set i (g, .emitted) }, [if f.chanClosed then .panic else .c0 0x1B])
+  | some (g, .emitted) =>
+    if f.mutex = none then some ({ f with mutex := some .cb, cbs := f.cbs.set i (g, .locked) }, []) else none
+  | some (g, .locked) => some ({ f with ps := { f.ps with state := .ground }, cbs := f.cbs.set i (g, .stateSet) }, [])
+  | some (g, .stateSet) => some ({ f with ps := { f.ps with ignoreST := false }, cbs := f.cbs.set i (g, .stSet) }, [])
+  | some (g, .stSet) => some ({ f with mutex := none, cbs := f.cbs.set i (g, .gone) }, [])
+  | _ => none
+
+def FSys.stepOld (T : Table) (f : FSys) : FLabel → Option (FSys × List Seq)
+  | .cb i => cbStepOld f i
+  | l => FSys.step T f l
+
+def FSys.runOld (T : Table) : FSys → List FLabel → Option (FSys × List Seq)
+  | f, [] => some (f, [])
+  | f, l :: ls =>
+    match FSys.stepOld T f l with
+    | none => none
+    | some (f1, o1) =>
+      match FSys.runOld T f1 ls with
+      | none => none
+      | some (f2, o2) => some (f2, o1 ++ o2)
+
 end VaxisModel.Model.ParserRunFine
